@@ -836,12 +836,12 @@ func c12ConcRun(w *c12Writer, run int, rng *rand.Rand, stats *c12Stats) {
 				}
 			}
 			s.mem.Lock()
+			defer s.mem.Unlock() // also when the mempool panics: the other goroutines must not hang
 			_ = s.mem.FlushAppConn()
 			_ = s.mem.Update(s.mem.height+1, btxs, rs, nil, nil)
 			if cfg.Recheck {
 				nre = s.mem.Size()
 			}
-			s.mem.Unlock()
 		}()
 		wg.Wait()
 		close(panics)
